@@ -223,3 +223,15 @@ func init() {
 		},
 	})
 }
+
+func init() {
+	register(&Property{
+		ID: "C23",
+		Explanation: "Decides structural necessary conditions of 'the language server stays consistent': UNITS(utf16): every outbound Position.Character is a sum of constants and results of the audited UTF-16 converter (two units above U+FFFF); the inbound conversion consumes two units for such runes and rejects positions between them. IDXGUARD: constant-index reads of client-supplied arrays are dominated by a length test. " +
+			"SEQ: package ls starts no goroutine; DidOpen/DidChange store the document before type-checking and publish the request's version; startLS serves the connection through protocol.Handlers(protocol.ServerHandler(…)). RANGE(single-line): the end of a diagnostic range is Offset + length of the error text up to its first newline. " +
+			"Not decided: the jsonrpc2 transport, that definition results are the right identifiers.",
+		Rules: []string{"UNITS(utf16)", "IDXGUARD", "SEQ", "RANGE(single-line)"},
+		Assumptions: []string{"go.lsp.dev/protocol.Handlers + ServerHandler reply only after the handler method returned (read in the vendored sources)"},
+		Run:   func(c *Ctx) { ruleLS(c) },
+	})
+}
